@@ -1230,8 +1230,13 @@ pub fn lane_big_stdin(seed: u64) -> Vec<Scenario> {
                             ops.push(Op::OutRepeat { fd: 1, unit: Bytes(unit.clone()), times: times / 2 });
                             ops.push(Op::OutRepeat { fd: 2, unit: Bytes(unit.clone()), times: times / 2 });
                         }
-                        ops.push(Op::Out { fd: 1, data: format!("{}-end\n", &nonce[..6]).as_str().into() });
-                        ops.push(Op::Status { code: 7 + k });
+                        // (no output at all and exit code 0 for the big one of the silent scenarios: a
+                        // test case that passes - if its expression ever reaches a shell)
+                        let silent = out_kib == 0 && k == 0;
+                        if !silent {
+                            ops.push(Op::Out { fd: 1, data: format!("{}-end\n", &nonce[..6]).as_str().into() });
+                        }
+                        ops.push(Op::Status { code: if silent { 0 } else { 7 + k } });
                         sim.programs.insert(nonce.clone(), ops);
                         // the command is the first line; the rest is text the shell reads afterwards
                         let mut expr = format!("vsim-cmd @vs:{}@ run @ve:{}@ # then a long tail\n", nonce, nonce);
@@ -1245,9 +1250,9 @@ pub fn lane_big_stdin(seed: u64) -> Vec<Scenario> {
                             title: format!("In {}", nonce),
                             expr,
                             nonce,
-                            expected_code: Some(7 + k),
+                            expected_code: if silent { None } else { Some(7 + k) },
                             expectations: vec![],
-                            expect_match: false,
+                            expect_match: silent,
                             cfg: TestCfg::default(),
                         });
                     }
@@ -1259,7 +1264,7 @@ pub fn lane_big_stdin(seed: u64) -> Vec<Scenario> {
                         cli: Cli::default(),
                         sim,
                         pretty: false,
-                        check: vec!["C13".into(), "C14".into()],
+                        check: vec!["C13".into(), "C14".into(), "C05".into(), "C20".into()],
                         partner: None,
                         turns: None,
                     });
